@@ -8,6 +8,7 @@ import IrVerif.Lemmas.CloneFrame
 import IrVerif.Lemmas.CloneSim
 import IrVerif.Lemmas.CloneSer
 import IrVerif.Lemmas.CloneScope
+import IrVerif.Lemmas.CloneResidue
 namespace IrVerif.Clone
 
 /-! ### what "the objects of a clone" are -/
@@ -829,6 +830,86 @@ theorem C13_raises_iff_inputs (allow : Bool) (s : St) (l : List (Option Nat)) :
             rw [liftok (some v) _ (ih2 (fun h => hn (hu.mpr h)))]
             simp [hlk]
 
+
+/-! ### C13_failed_clone_no_residue: a clone that raises leaves nothing behind -/
+
+/-- **C13_failed_clone_no_residue**.  When `Graph.clone` / `GraphView.clone` raises — for either
+    setting of `allow_outer_scope_values`, wherever and at whatever nesting depth it fails — every
+    pre-existing cell is afterwards exactly what it was: in particular the users lists of all
+    pre-existing values (the nodes the abandoned clone had created, which consumed outer-scope
+    values, were detached again: D112 fixed).  Hypothesis: the usage records of the heap before
+    cloning name existing cells (checked on every abstracted real heap by the driver). -/
+theorem C13_failed_clone_no_residue {w w' : World} {fuel : Nat} {allow : Bool} {g : Nat} {e : Err}
+    (hub : usesBounded w = true)
+    (h : run (graphClone fuel allow g) w = (.error e, w')) :
+    ∀ (i : Nat) (c : Cell), w[i]? = some c → w'[i]? = some c := by
+  obtain ⟨hres, _⟩ := CloneResult.of_good (fun s hI => graphClone_good (allow := allow) fuel g hI) h
+  have hbound : ∀ (i : Nat) (vs : ValueS), w[i]? = some (.val vs) → ∀ u ∈ vs.uses, u.1 < w.length := by
+    intro i vs hi u hu
+    unfold usesBounded at hub
+    rw [List.all_eq_true] at hub
+    have := hub _ (List.mem_of_getElem? hi)
+    simp only [List.all_eq_true] at this
+    simpa using this u hu
+  have hR0 : RInv w.length { w := w } := by
+    refine ⟨?_, ?_, Nat.le_refl _, by intro n hn; cases hn⟩
+    · intro v vs _ hvs u hu hun
+      have := hbound v vs hvs u hu
+      omega
+    · intro n ns hn hns
+      have hnone : w[n]? = none := List.getElem?_eq_none hn
+      rw [hnone] at hns
+      exact absurd hns (by simp)
+  obtain ⟨⟨hR, _⟩, hcr⟩ := cloneGraph_res (n0 := w.length) (allow := allow) fuel g { w := w } hR0
+  unfold run graphClone withFreshMap at h
+  rcases hms : cloneGraph allow fuel g { w := w } with ⟨r1, s1⟩
+  have e0 : ({ w := w, vm := [], pend := [], created := [] } : St) = { w := w } := rfl
+  simp only [e0, hms, Prod.mk.injEq] at h
+  obtain ⟨rfl, rfl⟩ := h
+  rw [hms] at hR hcr
+  have hcreated : s1.created = [] := by
+    have := hcr e rfl
+    simpa using this
+  -- no usage record by a new node is left on a pre-existing value
+  have hnone : ∀ (v : Nat) (vs : ValueS), v < w.length → s1.w[v]? = some (.val vs) →
+      ∀ u ∈ vs.uses, u.1 < w.length := by
+    intro v vs hv hvs u hu
+    rcases Nat.lt_or_ge u.1 w.length with hlt | hge
+    · exact hlt
+    · exfalso
+      obtain ⟨ns, hns, hin⟩ := hR.r v vs hv hvs u hu hge
+      rcases hR.d u.1 ns hge hns with hd | hd
+      · rw [hcreated] at hd; cases hd
+      · have := hd (some v) (List.mem_of_getElem? hin)
+        cases this
+  intro i c hc
+  obtain ⟨c', hc', hsame⟩ := hres.old i c hc
+  rw [hc']
+  have hi : i < w.length := lt_of_getElem? hc
+  cases c with
+  | val vs =>
+    have h1 := hsame.1
+    cases c' <;> simp [Cell.eraseUses] at h1
+    next vs' =>
+    have hu : vs'.uses = vs.uses := by
+      have h2 := hsame.2
+      simp only [Cell.usesOf] at h2
+      have f1 : vs'.uses.filter (fun u => decide (u.1 < w.length)) = vs'.uses :=
+        List.filter_eq_self.mpr (fun u hu => by simpa using hnone i vs' hi hc' u hu)
+      have f2 : vs.uses.filter (fun u => decide (u.1 < w.length)) = vs.uses :=
+        List.filter_eq_self.mpr (fun u hu => by simpa using hbound i vs hc u hu)
+      rw [f1, f2] at h2
+      exact h2
+    obtain ⟨a1, a2, a3, a4, a5, a6, a7, a8, a9, a10, a11, a12, a13⟩ := h1
+    cases vs; cases vs'
+    simp only at a1 a2 a3 a4 a5 a6 a7 a8 a9 a10 a11 a12 a13 hu
+    subst a1 a2 a3 a4 a5 a6 a7 a8 a9 a10 a11 a12 a13 hu
+    rfl
+  | _ =>
+    have h1 := hsame.1
+    cases c' <;> simp [Cell.eraseUses] at h1
+    all_goals (subst h1; rfl)
+
 /-! ### non-vacuity: the hypotheses are satisfiable and D33 is a real counterexample to the
 unconditional statement for `allow = true` -/
 
@@ -927,6 +1008,9 @@ example : isOk (run (graphClone 4 true 0) exUnsorted).1 = false ∧
   decide +kernel
 
 example : isOk (run (graphClone 4 false 0) exUnsorted).1 = false := by decide +kernel
+
+/-- the hypothesis of C13_failed_clone_no_residue holds of the example heaps -/
+example : usesBounded exUnsorted = true ∧ usesBounded exWorld = true := by decide +kernel
 
 /-- a graph that captures an outer-scope value `o` (cell 3): c = C(o) -> vc -/
 def exCapture : World := [
